@@ -2,7 +2,7 @@
  * COSyncRemove) - properties C12, C13, C14; EXPLICIT form over stubs of dictionary reads and the timer manager.
  * The point of these groups is the FRAME: re-activating PDO #n changes PDO #n and its own SYNC slots only - every
  * other PDO, the SYNC tables of the other direction and the buffered synchronous RPDO frames stay as they are.
- * -DVW_OP=0 COSyncAdd 1 COSyncRemove 2 COTPdoReset 3 CORPdoReset. */
+ * -DVW_OP=0 COSyncAdd 1 COSyncRemove 2 COTPdoReset 3 CORPdoReset 4 COTPdoInit 5 CORPdoInit. */
 #include "vw_defs.h"
 #include "vw_node.h"
 #include "nmt.h"
@@ -12,10 +12,10 @@ uint16_t A_INH, A_EVT; uint32_t H_TK_INH, H_TK_EVT;
 int16_t COTmrDelete(CO_TMR *tmr, int16_t actId) { __CPROVER_assert(tmr == &V_NODE.Tmr && actId >= 0, "COTmrDelete requires: a valid id"); if (N_TDEL < 2) { D_ID[N_TDEL] = actId; } N_TDEL++; int16_t r; return r; }
 int16_t COTmrCreate(CO_TMR *tmr, uint32_t s, uint32_t c, CO_TMR_FUNC f, void *p) { __CPROVER_assert(tmr == &V_NODE.Tmr, "COTmrCreate requires"); N_TCRE++; C_START = s; C_CYCLE = c; C_FUNC = f; C_PARA = p; __CPROVER_assume(H_TID >= -1); return H_TID; }
 uint32_t COTmrGetTicks(CO_TMR *tmr, uint16_t time, uint32_t unit) { if (unit == 10000) { A_INH = time; return time == 0 ? 0 : H_TK_INH; } __CPROVER_assert(unit == 1000, "unit"); A_EVT = time; return time == 0 ? 0 : H_TK_EVT; }
-uint8_t H_TYPE, H_MAPN; uint16_t H_INHT, H_EVTT; uint32_t H_ID, H_MAPENT[9]; _Bool H_TYPE_OK, H_ID_OK, H_INH_OK, H_EVT_OK, H_MAPN_OK, H_MAPENT_OK[9];
+uint8_t H_TYPE, H_MAPN; uint16_t H_INHT, H_EVTT; uint32_t H_ID, H_MAPENT[9]; _Bool H_TYPE_OK, H_ID_OK, H_INH_OK, H_EVT_OK, H_MAPN_OK, H_MAPENT_OK[9], H_COMM0_OK;
 #define ISMAP(key) ((((key) >> 16) & 0x0200) != 0)      /* 16xxh / 1Axxh mapping records vs 14xxh / 18xxh communication records */
 CO_ERR CODictRdByte(CO_DICT *cod, uint32_t key, uint8_t *val) { __CPROVER_assert(cod == &V_NODE.Dict && val != 0, "CODictRdByte requires"); uint8_t sub = (uint8_t)(key >> 8);
-    if (ISMAP(key)) { if (sub == 0 && H_MAPN_OK) { *val = H_MAPN; return CO_ERR_NONE; } } else if (sub == 2 && H_TYPE_OK) { *val = H_TYPE; return CO_ERR_NONE; } return CO_ERR_OBJ_NOT_FOUND; }
+    if (ISMAP(key)) { if (sub == 0 && H_MAPN_OK) { *val = H_MAPN; return CO_ERR_NONE; } } else if (sub == 2 && H_TYPE_OK) { *val = H_TYPE; return CO_ERR_NONE; } else if (sub == 0 && H_COMM0_OK) { *val = 5; return CO_ERR_NONE; } return CO_ERR_OBJ_NOT_FOUND; }
 CO_ERR CODictRdWord(CO_DICT *cod, uint32_t key, uint16_t *val) { __CPROVER_assert(cod == &V_NODE.Dict && val != 0, "CODictRdWord requires"); uint8_t sub = (uint8_t)(key >> 8);
     if (sub == 3 && H_INH_OK) { *val = H_INHT; return CO_ERR_NONE; } if (sub == 5 && H_EVT_OK) { *val = H_EVTT; return CO_ERR_NONE; } return CO_ERR_OBJ_NOT_FOUND; }
 CO_ERR CODictRdLong(CO_DICT *cod, uint32_t key, uint32_t *val) { __CPROVER_assert(cod == &V_NODE.Dict && val != 0, "CODictRdLong requires"); uint8_t sub = (uint8_t)(key >> 8);
@@ -92,6 +92,28 @@ void harness(void)
         if (sync) { __CPROVER_assert(0, "REACH:a"); }
         if (N_TCRE == 1) { __CPROVER_assert(0, "REACH:b"); }
     }
+#elif VW_OP == 4 || VW_OP == 5
+    /* node initialisation / NMT reset: every PDO is cleared, those with a communication record are (re)activated */
+    __CPROVER_assume(!H_MAPN_OK || H_MAPN <= VW_MAPN_MAX);
+    for (int i = 1; i <= 8; i++) { __CPROVER_assume(((uint8_t)H_MAPENT[i] >> 3) >= 1); }
+    for (int k = 0; k < CO_TPDO_N; k++) { S.TPdo[k] = 0; V_NODE.TPdo[k].Flags = 0; }      /* fresh SYNC tables (COSyncInit runs first) */
+    for (int k = 0; k < CO_RPDO_N; k++) { S.RPdo[k] = 0; V_NODE.RPdo[k].Flag = 0; }
+#if VW_OP == 4
+    COTPdoInit(V_NODE.TPdo, &V_NODE);
+    __CPROVER_assert(N_TDEL == 0 && V_NODE.TPdo[G_T].Node == &V_NODE && V_NODE.TPdo[G_T].InTmr == -1 && V_NODE.TPdo[G_T].ObjNum <= 8, "init: every TPDO is linked to the node, owns no inhibit timer, maps at most 8 objects; no timer is deleted");
+    __CPROVER_assert(!H_COMM0_OK ==> (V_NODE.TPdo[G_T].Identifier == CO_TPDO_COBID_OFF && V_NODE.TPdo[G_T].ObjNum == 0 && V_NODE.TPdo[G_T].EvTmr == -1 && S.TPdo[G_T] == 0 && N_TCRE == 0), "init: a TPDO without communication record stays off");
+    __CPROVER_assert(((V_NODE.TPdo[G_T].Flags & CO_TPDO_FLG_S__) != 0) == (S.TPdo[G_T] != 0) && (S.TPdo[G_T] == 0 || S.TPdo[G_T] == &V_NODE.TPdo[G_T]) && S.RPdo[G_R] == 0, "init: WF_SYNC established; RPDO table untouched");
+    __CPROVER_assert(N_TCRE <= CO_TPDO_N, "init: at most one event timer per TPDO");
+    if (H_COMM0_OK && V_NODE.TPdo[G_T].Identifier != CO_TPDO_COBID_OFF) { __CPROVER_assert(0, "REACH:a"); }
+    if (!H_COMM0_OK) { __CPROVER_assert(0, "REACH:b"); }
+#else
+    CORPdoInit(V_NODE.RPdo, &V_NODE);
+    __CPROVER_assert(N_TDEL == 0 && N_TCRE == 0 && V_NODE.RPdo[G_R].Node == &V_NODE && V_NODE.RPdo[G_R].ObjNum <= 8, "init: every RPDO is linked to the node and maps at most 8 slots; no timer is touched");
+    __CPROVER_assert(!H_COMM0_OK ==> (V_NODE.RPdo[G_R].Identifier == 0 && V_NODE.RPdo[G_R].ObjNum == 0 && S.RPdo[G_R] == 0), "init: an RPDO without communication record receives nothing");
+    __CPROVER_assert(((V_NODE.RPdo[G_R].Flag & CO_RPDO_FLG_S_) != 0) == (S.RPdo[G_R] != 0) && (S.RPdo[G_R] == 0 || S.RPdo[G_R] == &V_NODE.RPdo[G_R]) && S.TPdo[G_T] == 0, "init: WF_SYNC established; TPDO table untouched");
+    if (H_COMM0_OK && (V_NODE.RPdo[G_R].Flag & CO_RPDO_FLG__E)) { __CPROVER_assert(0, "REACH:a"); }
+    if (!H_COMM0_OK) { __CPROVER_assert(0, "REACH:b"); }
+#endif
 #else
     __CPROVER_assume(!H_MAPN_OK || H_MAPN <= VW_MAPN_MAX);
     for (int i = 1; i <= 8; i++) { __CPROVER_assume(((uint8_t)H_MAPENT[i] >> 3) >= 1); }
